@@ -3,7 +3,7 @@ the extracted model (Model/State.v) and the real State driven through the StateP
 import itertools
 from . import core, engprop, gen
 
-THEOREMS = ["C20_refines_op", "C20_all_histories"]
+THEOREMS = ["C20_refines_op", "C20_all_histories", "C20_fnla_pops_to_own_branch", "C20_fnla_step"]
 VALS = ["0", "1", "2", "M"]
 
 
